@@ -141,7 +141,13 @@ func runC11Case(c *Ctx, idx int) *CaseResult {
 			cr.inc("fetch_on_previously_executed_instance")
 		}
 		retErr := sr.Intn(3) == 0
+		init2 := GenState(sr) // the second half of the repetitions uses other facts on the same instance
+		orig := init
 		for rep := 0; rep < 8; rep++ {
+			init = orig
+			if rep >= 4 {
+				init = init2
+			}
 			cfg := RunCfg{Fetch: true, RetErr: retErr}
 			res := Run(kb, prog, CopyStateLive(init), cfg)
 			cr.Evals++
@@ -157,8 +163,8 @@ func runC11Case(c *Ctx, idx int) *CaseResult {
 				cr.violate(joinViol(vs[:min(3, len(vs))]), d)
 				break
 			}
-			if nt && rep == 0 {
-				cr.NonTrivial = append(cr.NonTrivial, hashStr(fmt.Sprintf("%s|%d", text, si)))
+			if nt && (rep == 0 || rep == 4) {
+				cr.NonTrivial = append(cr.NonTrivial, hashStr(fmt.Sprintf("%s|%d|%d", text, si, rep)))
 			}
 			cr.set("returned_orders", hashStr(strings.Join(res.Matched, ",")))
 			if cr.Sample == nil && len(res.Matched) >= 2 {
@@ -198,6 +204,17 @@ func runC08Case(c *Ctx, idx int) *CaseResult {
 		cr.inconclusive("instance creation failed (judged by C09)")
 		return cr
 	}
+	// every third history keeps ONE engine object and ONE data context for all its calls and
+	// alternates between two instances of the same knowledge base
+	var shared *SharedEnv
+	kbs := []*ast.KnowledgeBase{kb}
+	if idx%3 == 0 {
+		shared = &SharedEnv{}
+		if kb2, err := NewInstance(lib); err == nil {
+			kbs = append(kbs, kb2)
+		}
+		cr.inc("histories_with_shared_engine_and_data_context")
+	}
 	ncalls := 2 + r.Intn(5)
 	var hist []string
 	leftBehind := false // an earlier call left state behind (retraction, memo, completion)
@@ -209,8 +226,14 @@ func runC08Case(c *Ctx, idx int) *CaseResult {
 		if ending == "error" {
 			hostileState(sr, init)
 		}
+		if shared != nil {
+			kb = kbs[k%len(kbs)]
+			if _, ok := init["G"]; !ok {
+				init["G"] = GenState(sr)["G"] // a shared data context keeps its entries: no missing fact here
+			}
+		}
 		if kind == "fetch" {
-			cfg := RunCfg{Fetch: true}
+			cfg := RunCfg{Fetch: true, Shared: shared}
 			res := Run(kb, prog, CopyStateLive(init), cfg)
 			cr.Evals++
 			vs, domain, _ := MonFetch(prog, res, cfg, init, nil)
@@ -231,7 +254,7 @@ func runC08Case(c *Ctx, idx int) *CaseResult {
 			}
 			continue
 		}
-		cfg := RunCfg{MaxCycle: uint64(6 + sr.Intn(20))}
+		cfg := RunCfg{MaxCycle: uint64(6 + sr.Intn(20)), Shared: shared}
 		if ending == "limit" {
 			cfg.MaxCycle = uint64(sr.Intn(3))
 		}
@@ -281,6 +304,13 @@ func runC08Case(c *Ctx, idx int) *CaseResult {
 		}
 		if len(a.Cycles) > 0 {
 			leftBehind = true // remembered values
+		}
+		if shared != nil {
+			for _, e := range res.Events {
+				if e.Kind == "complete" {
+					shared.DC = nil // a completed data context is not reused (the property speaks of a new data context)
+				}
+			}
 		}
 		cr.set("endings", ending+":"+errClass(res.Err))
 	}
